@@ -483,6 +483,15 @@ func runMachine(t *rapid.T, c *ev.Case, md mode, big bool) {
 	if big {
 		// reach the 4 MiB cap (or a multi-megabyte limit) with ~64 huge packets
 		c.Label("scenario/fill-to-cap")
+		relimited := false
+		if !mc.md.limits && rapid.IntRange(0, 1).Draw(t, "bprelimit") == 0 {
+			// size the ring under a limit below the cap first
+			v := rapid.SampledFrom([]int{Cap4MiB - 40000, 3 << 20, 1 << 20, 200000}).Draw(t, "bplim")
+			mc.b.SetLimitSize(v)
+			mc.m.LimitSize = v
+			c.Op("SetLimitSize %d", v)
+			t.Logf("SetLimitSize(%d)", v)
+		}
 		for i := 0; i < 70 && !mc.m.Closed; i++ {
 			lim := mc.m.LimitSize
 			if lim <= 0 || lim > Cap4MiB {
@@ -505,6 +514,16 @@ func runMachine(t *rapid.T, c *ev.Case, md mode, big bool) {
 			if missing <= MaxPacket+3 && rapid.IntRange(0, 2).Draw(t, "bstop") == 0 {
 				break
 			}
+			if missing <= MaxPacket+3 && lim < Cap4MiB && !relimited && rapid.IntRange(0, 1).Draw(t, "brelimit") == 0 {
+				// the ring was sized under a limit below the cap; lift or raise the limit with the data in place and go on to the cap
+				relimited = true
+				v := rapid.SampledFrom([]int{0, 0, 5 << 20, Cap4MiB, Cap4MiB - 1}).Draw(t, "blim")
+				mc.b.SetLimitSize(v)
+				mc.m.LimitSize = v
+				c.Op("SetLimitSize %d", v)
+				t.Logf("SetLimitSize(%d) with %d bytes stored", v, mc.m.Size())
+				c.Label("scenario/limit-lifted-while-full")
+			}
 		}
 	}
 	steps := rapid.IntRange(1, 60).Draw(t, "steps")
@@ -514,16 +533,18 @@ func runMachine(t *rapid.T, c *ev.Case, md mode, big bool) {
 	mc.finish()
 }
 
-const ruleC06 = "rapid-drawn history over one packetio.Buffer: writes (lengths 0..40, 0..3000, 2040..2060, aimed at the ring end +-3, aimed at the size limit, 60000..65535, 65536, 70000; the writer's slice is overwritten right after Write returns), reads (destination exact, len+-1, 0, 1, 65535), limit changes, Close, 'walk' bursts that keep 1..3 small packets in flight so head/tail travel round the ring, final drain; every Read compared byte for byte with a FIFO model; non-trivial = a growth step happened while the data was wrapped, or a header/payload was split across the ring end (seen through a read-only ring-geometry shim), and it was read back; distinct by hash of the step list"
+const ruleC06 = "rapid-drawn history over one packetio.Buffer: writes (lengths 0..40, 0..3000, 2040..2060, aimed at the ring end +-3, aimed at the size limit, 60000..65535, 65536, 70000; the writer's slice is overwritten right after Write returns), reads (destination exact, len+-1, 0, 1, 65535), limit changes, Close, 'walk' bursts that keep 1..3 small packets in flight so head/tail travel round the ring, 1 in 8 cases starts with the fill to the 4 MiB cap of the limits machine (including a limit lifted while the ring is full), final drain; every Read compared byte for byte with a FIFO model; non-trivial = a growth step happened while the data was wrapped, or a header/payload was split across the ring end (seen through a read-only ring-geometry shim), and it was read back; distinct by hash of the step list"
 
-const ruleC07 = "same machine with limits emphasised: size limits from {unset, 1..100, 2048*2^k+-3, 131072*1.25^j+-3, 4MiB+-3, 5MiB}, count limits {0..6,100}, changed at drawn points; ~10% of writes have their length derived from 'bytes missing to the active limit' in -3..3; 1 in 12 cases first fills to the 4 MiB cap with 65000..65535-byte packets; after every operation Count()/Size() are compared with the model and every Write verdict (accepted / ErrFull) with the rule; non-trivial = a write landed within +-3 bytes or +-1 packet of the active limit; distinct by hash of the step list"
+const ruleC07 = "same machine with limits emphasised: size limits from {unset, 1..100, 2048*2^k+-3, 131072*1.25^j+-3, 4MiB+-3, 5MiB}, count limits {0..6,100}, changed at drawn points; ~10% of writes have their length derived from 'bytes missing to the active limit' in -3..3; 1 in 12 cases first fills to the 4 MiB cap with 65000..65535-byte packets, and when that fill arrives at a size limit below the cap, half of them lift or raise the limit with the data in place and go on to the cap; after every operation Count()/Size() are compared with the model and every Write verdict (accepted / ErrFull) with the rule; non-trivial = a write landed within +-3 bytes or +-1 packet of the active limit; distinct by hash of the step list"
 
 func TestC06Sequential(t *testing.T) {
 	r := ev.New("C06", "sequential", ruleC06)
 	r.Essential = []string{"ring/growth-while-wrapped", "ring/header-split-across-end", "ring/payload-split-across-end", "read/short", "write/too-big", "write/after-close"}
 	r.MinForEssential = 500
 	r.Check(t, func(t *rapid.T, c *ev.Case) {
-		runMachine(t, c, mode{fifo: true}, false)
+		// 1 in 8: first fill to the 4 MiB cap (and past a lifted limit) with huge packets
+		big := rapid.IntRange(0, 7).Draw(t, "big") == 5
+		runMachine(t, c, mode{fifo: true}, big)
 	})
 }
 
